@@ -484,6 +484,16 @@ def battery_inf():
                     "minmax": minmax, "seed": 5000 + 10 * a + d}
             out.append({"i": f"n{len(out)}", "opt": opt, "cfg": dict(base, max_cycles=6), "cfg_class": "battery-inf", "spec": spec,
                         "mode": "serial", "workers": None})
+    # infinitely GOOD values (-inf on a min task, +inf on a max task) on a target box that random points hit often
+    for a, opt in enumerate(opt_names()):
+        base = dict(base_configs()[opt])
+        base["fitness_error"] = None
+        for d, minmax in enumerate(("min", "max")):
+            obj = {"fam": "jackpot", "p": {"thr": 2.5, "shift": 1.0, **({"scale": -1.0} if minmax == "max" else {})}}
+            spec = {"vars": [["cm", [-10.0, -10.0], [10.0, 10.0]]], "obj": [obj], "weights": None,
+                    "minmax": minmax, "seed": 6000 + 10 * a + d}
+            out.append({"i": f"n{len(out)}", "opt": opt, "cfg": dict(base, max_cycles=6), "cfg_class": "battery-inf", "spec": spec,
+                        "mode": "serial", "workers": None})
     return out
 
 
